@@ -343,6 +343,33 @@ fn devset(initial: &Option<Vec<f64>>, pushes: &[f64]) -> Verdict {
         if let Err(f) = verify(&set, &model, k + 1) {
             return Verdict::Fail(f);
         }
+        // half-way through the history the set is written out and read back (and, for the other parity, cloned): what
+        // comes back is a set holding the same deviations, so it reports the same extremes and carries on from there
+        if k + 1 == (pushes.len() + 1) / 2 {
+            if pushes.len() % 2 == 0 {
+                let text = match serde_json::to_string(&set) {
+                    Ok(t) => t,
+                    Err(e) => return Verdict::fail("C16/devset/serialize", format!("{e}")),
+                };
+                set = match guarded(|| serde_json::from_str::<SurfaceDeviationSet2>(&text)) {
+                    Ok(Ok(s)) => s,
+                    Ok(Err(e)) => return Verdict::fail("C16/devset/deserialize", format!("{e}")),
+                    Err(m) => return Verdict::fail("C16/devset/deserialize_panic", m),
+                };
+                cx.label("devset_read_back");
+            } else {
+                set = set.clone();
+                cx.label("devset_cloned");
+            }
+            match guarded(|| verify(&set, &model, 1000 + k)) {
+                Ok(Ok(())) => {}
+                Ok(Err(mut f)) => {
+                    f.sig = format!("{}/after_copy", f.sig);
+                    return Verdict::Fail(f);
+                }
+                Err(m) => return Verdict::fail("C16/devset/panic_after_copy", m),
+            }
+        }
     }
     if !model.is_empty() {
         let mx = model.iter().cloned().fold(f64::NEG_INFINITY, f64::max);
